@@ -1,6 +1,8 @@
 //! hv — conformance harness binding the TLA+ specification in /verif/spec to ureq-proto (/repo).
 //! Every subcommand drives the PUBLIC API only and writes one ndjson event per call.
 mod drv_br;
+mod drv_head;
+mod fx;
 mod drv_bw;
 mod lex;
 mod util;
@@ -40,6 +42,9 @@ fn main() {
         "c19" => drv_bw::c19(&o, &mut t),
         "c07" => extra = drv_br::c07(&o, &mut t),
         "c08" => extra = drv_br::c08(&o, &mut t),
+        "c05" => extra = drv_head::c05(&o, &mut t),
+        "c20" => extra = drv_head::c20(&o, &mut t),
+        "c06" => extra = drv_head::c06(&o, &mut t),
         _ => {
             eprintln!("unknown driver {}", drv);
             std::process::exit(2);
